@@ -13,7 +13,7 @@ def main(tier):
     IS.run_all(rep, tier, 'C04:')
 
     from contracts import degree_c
-    degree_c.run(rep, ['VacancyMediated.Lij', 'Interstitial.siteprob', 'Interstitial.ratelist', 'Interstitial.symmratelist', 'Interstitial.diffusivity'], replay=degree_c.replay_lij)
+    degree_c.run(rep, list(degree_c.CONTRACTS), replay=degree_c.replay_lij)      # every degree contract: the whole chain data -> free energies -> rates -> Green function -> tensors
 
     from vf import extract
     for rel, q in [('onsager/OnsagerCalc.py', 'Interstitial.siteprob'), ('onsager/OnsagerCalc.py', 'Interstitial.ratelist'), ('onsager/OnsagerCalc.py', 'Interstitial.symmratelist'), ('onsager/OnsagerCalc.py', 'VacancyMediated.preene2betafree'), ('onsager/OnsagerCalc.py', 'VacancyMediated._symmetricandescaperates'), ('onsager/OnsagerCalc.py', 'VacancyMediated.Lij'), ('onsager/GFcalc.py', 'GFCrystalcalc.SetRates')]:
